@@ -1325,6 +1325,17 @@ pub fn generate(prop: &str, seed: u64) -> Case {
     generate_with(&p, seed)
 }
 
+/// thorough tier: wider bounds (longer programs, one more caller thread) on top of more runs
+pub fn generate_tier(prop: &str, seed: u64, thorough: bool) -> Case {
+    let mut p = profile(prop);
+    if thorough {
+        p.ops.1 = (p.ops.1 * 3 / 2).min(120);
+        p.callers.1 = (p.callers.1 + 1).min(4);
+        p.max_depth += 2;
+    }
+    generate_with(&p, seed)
+}
+
 pub fn generate_with(p: &Profile, seed: u64) -> Case {
     let mut rng = Rng::new(seed);
     let callers = p.callers.0 + rng.below(p.callers.1 - p.callers.0 + 1);
